@@ -14,3 +14,21 @@ Proof. vm_compute. reflexivity. Qed.
 (* C17/C19: one case per node type pushing its node-typed fields in reverse declaration order *)
 Lemma walk_table_checked : walk_table_ok schema walk_impl = true.
 Proof. vm_compute. reflexivity. Qed.
+
+(* ---------- printer programs (Gen/PrintProg.v from ast/sql.go) ---------- *)
+From Verif Require Import Tree.Printer Gen.PrintProg.
+
+(* C04/C01: one SQL() program per node type, kinds fit the struct, opaque exactly where a hand model exists,
+   exprPrec has an entry for every implementer of Expr and for nothing else *)
+Lemma printer_checked : printer_ok schema ifaces sql_prog prec_table = true.
+Proof. vm_compute. reflexivity. Qed.
+
+(* C01/C02: SQL() reads every field that is not a bare position (nothing the parser stored can silently disappear),
+   except the recorded finding(s): on the pinned tree exactly Join.Method (known_findings.json KF-join-method) *)
+Definition known_unread : list (string * string) := [("Join", "Method")]%string.
+Lemma unread_fields_checked : forallb (fun x => pair_mem x known_unread) (unread_fields schema sql_prog) = true.
+Proof. vm_compute. reflexivity. Qed.
+
+(* C01: every list separator separates tokens *)
+Lemma separators_checked : bad_separators sql_prog = [].
+Proof. vm_compute. reflexivity. Qed.
